@@ -275,4 +275,237 @@ theorem Inv.link {c : Cfg} {s : State} (h : Inv c s) {t id cv cg : Nat} (hpc : s
   · intro x hx
     simp only [transit_upd htr]; exact h.noleak x hx
 
+theorem chainOK_head_mem {tl : Nat} {next : Nat → Nat} {h : Nat} {l : List Nat}
+    (hc : chainOK tl next h l) (hh : h ≠ tl) : h ∈ l := by
+  cases l with
+  | nil => exact absurd hc hh
+  | cons y ys => simp [hc.1]
+
+/-- a2, CAS succeeds: pop -/
+theorem Inv.pop {c : Cfg} {s : State} (h : Inv c s) (hnw : NoWrap c s) {t cv cg nr : Nat}
+    (hpc : s.pc t = .a2 cv cg nr) (hV : s.headV = cv) (hG : s.headG % 2 ^ c.W = cg % 2 ^ c.W) :
+    Inv c { s with headV := nr, owner := upd s.owner cv (some t), dup := s.dup || (s.owner cv).isSome,
+                   pc := upd s.pc t (.a3 cv cg), fl := s.fl.tail } := by
+  have ht := h.thr t
+  rw [hpc] at ht
+  obtain ⟨hcvt, hle, _, hK⟩ := ht
+  have hGe : s.headG = cg := by
+    have h1 := hnw t cv cg nr hpc
+    have h2 : s.headG = cg + (s.headG - cg) := by omega
+    generalize s.headG - cg = d at h1 h2
+    rw [h2, Nat.add_mod] at hG
+    rw [Nat.mod_eq_of_lt h1] at hG
+    have h3 := Nat.mod_lt cg (Nat.two_pow_pos c.W)
+    by_cases hd : d = 0
+    · omega
+    · exfalso
+      by_cases h4 : cg % 2 ^ c.W + d < 2 ^ c.W
+      · rw [Nat.mod_eq_of_lt h4] at hG; omega
+      · have h5 : cg % 2 ^ c.W + d = 2 ^ c.W + (cg % 2 ^ c.W + d - 2 ^ c.W) := by omega
+        rw [h5, Nat.add_mod_left, Nat.mod_eq_of_lt (by omega)] at hG
+        omega
+  have hnext : s.next cv = nr := hK hV hGe
+  obtain ⟨xs, hxs⟩ := h.head_cons (by rw [hV]; exact hcvt)
+  rw [hV] at hxs
+  have hchain := h.chain
+  have hnod := h.nodup
+  rw [hxs] at hchain hnod
+  have hcvx : cv ∉ xs := (List.nodup_cons.mp hnod).1
+  have hnodx : xs.Nodup := (List.nodup_cons.mp hnod).2
+  have hfl := h.flmem
+  rw [hxs] at hfl
+  have hcvo : s.owner cv = none := (hfl cv (by simp)).2
+  have hcvn : cv < s.nv := (hfl cv (by simp)).1
+  have hchx : chainOK c.tail s.next nr xs := by rw [← hnext]; exact hchain.2
+  have htr : (Pc.a3 cv cg).transit = (s.pc t).transit := by simp [hpc, Pc.transit]
+  have hhigh := h.high
+  refine { chain := ?chain, nodup := ?nodup, flmem := ?flmem, high := ?high,
+           nd := ?nd, cap := h.cap, thr := ?thr, uniq := ?uniq, flag := ?flag, noleak := ?noleak }
+  case chain => simp only [hxs, List.tail_cons]; exact hchx
+  case nodup => simp only [hxs, List.tail_cons]; exact hnodx
+  case flmem =>
+    simp only [hxs, List.tail_cons]
+    intro x hx
+    have := hfl x (List.mem_cons_of_mem _ hx)
+    have hne : x ≠ cv := fun e => hcvx (e ▸ hx)
+    rw [upd_other _ _ hne]; exact this
+  case high =>
+    intro x hx; simp only at hx ⊢
+    have hne : x ≠ cv := by omega
+    rw [upd_other _ _ hne]; exact hhigh x hx
+  case nd => simp [h.nd, hcvo]
+  case thr =>
+    intro u
+    by_cases hu : u = t
+    · subst hu; simp [TInv]
+    · simp only [upd_other _ _ hu, hxs, List.tail_cons]
+      have hu' := h.thr u
+      have hmemx : ∀ x, x ∈ xs → x ∈ s.fl := fun x hx => by rw [hxs]; exact List.mem_cons_of_mem _ hx
+      have hnrx : nr ≠ c.tail → nr ∈ xs := chainOK_head_mem hchx
+      have hcvfl : cv ∈ s.fl := by rw [hxs]; simp
+      have hflo := h.flmem
+      cases hp : s.pc u <;> rw [hp] at hu' <;> simp only [TInv] at hu' ⊢ <;> try exact hu'
+      all_goals grind [upd]
+  case uniq =>
+    intro u w id
+    simp only [transit_upd htr]; exact h.uniq u w id
+  case flag =>
+    intro x u hx
+    simp only at hx ⊢
+    by_cases hxn : x = cv
+    · subst hxn; simp at hx; subst hx; simp [Pc.fresh]
+    · rw [upd_other _ _ hxn] at hx
+      have := h.flag x u hx
+      by_cases hv : u = t
+      · subst hv; simp [hpc, Pc.fresh] at this; exact Or.inr this
+      · simpa [upd_other _ _ hv] using this
+  case noleak =>
+    intro x hx
+    simp only [transit_upd htr, hxs, List.tail_cons]
+    have := h.noleak x hx
+    rw [hxs] at this
+    by_cases hxn : x = cv
+    · subst hxn; right; left; simp
+    · rw [upd_other _ _ hxn]; simpa [hxn] using this
+
+/-- d2, CAS succeeds: push.  Needs no NoWrap: a push only relies on the head *value* being current. -/
+theorem Inv.push {c : Cfg} {s : State} (h : Inv c s) {t id cv cg : Nat}
+    (hpc : s.pc t = .d2 id cv cg) (hV : s.headV = cv) :
+    Inv c { s with headV := id, headG := s.headG + pushVersionBump, pc := upd s.pc t .idle,
+                   fl := id :: s.fl } := by
+  have ht := h.thr t
+  rw [hpc] at ht
+  obtain ⟨hown, hlt, hnfl, hnext⟩ := ht
+  have htr : ∀ v x, (upd s.pc t .idle v).transit = some x → v ≠ t ∧ (s.pc v).transit = some x := by
+    intro v x; by_cases hv : v = t
+    · subst hv; simp [Pc.transit]
+    · simp [upd_other _ _ hv, hv]
+  have hfr : (Pc.idle).fresh = (s.pc t).fresh := by simp [hpc, Pc.fresh]
+  have hbump : pushVersionBump = 1 := rfl
+  refine { chain := ?chain, nodup := ?nodup, flmem := ?flmem, high := h.high,
+           nd := h.nd, cap := h.cap, thr := ?thr, uniq := ?uniq, flag := ?flag, noleak := ?noleak }
+  case chain => exact ⟨rfl, by rw [hnext, ← hV]; exact h.chain⟩
+  case nodup => exact List.nodup_cons.mpr ⟨hnfl, h.nodup⟩
+  case flmem =>
+    intro x hx
+    rcases List.mem_cons.mp hx with rfl | hx
+    · exact ⟨hlt, hown⟩
+    · exact h.flmem x hx
+  case thr =>
+    intro u
+    by_cases hu : u = t
+    · subst hu; simp [TInv]
+    · simp only [upd_other _ _ hu, hbump]
+      have hu' := h.thr u
+      have huniq := h.uniq u t
+      rw [hpc] at huniq
+      cases hp : s.pc u <;> rw [hp] at hu' huniq <;> simp only [TInv, Pc.transit] at hu' huniq ⊢ <;> try exact hu'
+      all_goals grind
+  case uniq =>
+    intro u w x hu hw
+    exact h.uniq u w x (htr u x hu).2 (htr w x hw).2
+  case flag =>
+    intro x u hx
+    simp only [fresh_upd hfr]; exact h.flag x u hx
+  case noleak =>
+    intro x hx
+    rcases h.noleak x hx with h1 | h1 | ⟨w, hw⟩
+    · left; exact List.mem_cons_of_mem _ h1
+    · right; left; exact h1
+    · by_cases hwt : w = t
+      · subst hwt; rw [hpc] at hw; simp [Pc.transit] at hw; left; simp [hw]
+      · right; right; exact ⟨w, by simpa [upd_other _ _ hwt] using hw⟩
+
+/-- an idle owner calls deallocate -/
+theorem Inv.callDealloc {c : Cfg} {s : State} (h : Inv c s) {t id : Nat}
+    (hpc : s.pc t = .idle) (hown : s.owner id = some t) : Inv c (callDealloc s t id) := by
+  have hlt : id < s.nv := by
+    by_cases hh : id < s.nv
+    · exact hh
+    · have := h.high id (by omega); simp [hown] at this
+  have hnfl : id ∉ s.fl := fun hm => by have := (h.flmem id hm).2; simp [hown] at this
+  unfold Babylon.IdAlloc.callDealloc
+  refine { chain := h.chain, nodup := h.nodup, flmem := ?flmem, high := ?high,
+           nd := h.nd, cap := h.cap, thr := ?thr, uniq := ?uniq, flag := ?flag, noleak := ?noleak }
+  case flmem =>
+    intro x hx; have := h.flmem x hx; simp only; grind [upd]
+  case high =>
+    intro x hx; have := h.high x hx; simp only; grind [upd]
+  case thr =>
+    intro u
+    by_cases hu : u = t
+    · subst hu; simp [TInv, hlt, hnfl]
+    · simp only [upd_other _ _ hu]
+      have hu' := h.thr u
+      cases hp : s.pc u <;> rw [hp] at hu' <;> simp only [TInv] at hu' ⊢ <;> try exact hu'
+      all_goals grind [upd]
+  case uniq =>
+    intro u w x hu hw
+    simp only at hu hw
+    have key : ∀ v, v ≠ t → (s.pc v).transit = some id → False := by
+      intro v _ hv
+      have hv' := h.thr v
+      cases hp : s.pc v <;> rw [hp] at hv' hv <;> simp only [TInv, Pc.transit] at hv' hv <;> grind
+    by_cases hut : u = t <;> by_cases hwt : w = t
+    · rw [hut, hwt]
+    · subst hut; simp [upd_other _ _ hwt, Pc.transit] at hu hw; subst hu; exact (key w hwt hw).elim
+    · subst hwt; simp [upd_other _ _ hut, Pc.transit] at hu hw; subst hw; exact (key u hut hu).elim
+    · simp [upd_other _ _ hut, upd_other _ _ hwt] at hu hw; exact h.uniq u w x hu hw
+  case flag =>
+    intro x u hx
+    simp only at hx ⊢
+    have hxn : x ≠ id := by intro e; subst e; simp at hx
+    rw [upd_other _ _ hxn] at hx
+    have := h.flag x u hx
+    by_cases hv : u = t
+    · subst hv; simp [hpc, Pc.fresh] at this; exact Or.inr this
+    · simpa [upd_other _ _ hv] using this
+  case noleak =>
+    intro x hx
+    simp only at hx ⊢
+    by_cases hxn : x = id
+    · subst hxn; right; right; exact ⟨t, by simp [Pc.transit]⟩
+    · rcases h.noleak x hx with h1 | h1 | ⟨w, hw⟩
+      · exact Or.inl h1
+      · right; left; rw [upd_other _ _ hxn]; exact h1
+      · right; right
+        have hwt : w ≠ t := by intro e; subst e; rw [hpc] at hw; simp [Pc.transit] at hw
+        exact ⟨w, by simpa [upd_other _ _ hwt] using hw⟩
+
+/-- ghost hand-off of an id whose allocate has returned -/
+theorem Inv.give {c : Cfg} {s : State} (h : Inv c s) {t u id : Nat}
+    (hown : s.owner id = some t) (hfr : (s.pc t).fresh ≠ some id) : Inv c (giveId s id u) := by
+  have hlt : id < s.nv := by
+    by_cases hh : id < s.nv
+    · exact hh
+    · have := h.high id (by omega); simp [hown] at this
+  unfold giveId
+  refine { chain := h.chain, nodup := h.nodup, flmem := ?flmem, high := ?high,
+           nd := h.nd, cap := h.cap, thr := ?thr, uniq := h.uniq, flag := ?flag, noleak := ?noleak }
+  case flmem =>
+    intro x hx; have := h.flmem x hx; simp only; grind [upd]
+  case high =>
+    intro x hx; have := h.high x hx; simp only at hx ⊢; grind [upd]
+  case thr =>
+    intro w
+    have hw' := h.thr w
+    simp only
+    cases hp : s.pc w <;> rw [hp] at hw' <;> simp only [TInv] at hw' ⊢ <;> try exact hw'
+    all_goals (first | grind [upd] | (by_cases hwt : w = t <;> grind [upd, Pc.fresh]))
+  case flag =>
+    intro x w hx
+    simp only at hx ⊢
+    by_cases hxn : x = id
+    · subst hxn; simp at hx; subst hx
+      rcases h.flag x t hown with h1 | h1
+      · exact absurd h1 hfr
+      · exact Or.inr h1
+    · rw [upd_other _ _ hxn] at hx; exact h.flag x w hx
+  case noleak =>
+    intro x hx
+    rcases h.noleak x hx with h1 | h1 | h1
+    · exact Or.inl h1
+    · right; left; simp only; grind [upd]
+    · exact Or.inr (Or.inr h1)
+
 end Babylon.IdAlloc
